@@ -1536,8 +1536,11 @@ def selftest():
 
 # =========================================================================== registration
 def subchecks(tier):
+    core = Sub("core", body, enumerate=core_cases, expand=expand_core, exhaustive=True, size=case_size)
+    # the runner's time guard is per work unit: 8 shorter units (on the same 4 processes) instead of 4 long ones
+    core.shards_quick = 8
     subs = [
-        Sub("core", body, enumerate=core_cases, expand=expand_core, exhaustive=True, size=case_size),
+        core,
         Sub("pairwise", body, strategy=pairwise_case, quick=900, thorough=24000, size=case_size, shrink_s=40),
     ]
     if tier == "thorough":
